@@ -97,7 +97,7 @@ func c06Exec(c c06Case, limit int64) (c06Obs, *Verdict) {
 		cfg.TLS = "starttls"
 	}
 	script := harness.Script{LMTPSession: c.Mode == 2,
-		DefaultData: &harness.DataPlan{Read: harness.ReadPlan{Sizes: c.Reads, Limit: -1}, Honest: true}}
+		DefaultData: &harness.DataPlan{Read: harness.ReadPlan{Sizes: c.Reads, Limit: -1, Retry: 3}, Honest: true}}
 	r := harness.NewRig(cfg, script)
 	w, _ := r.Dial()
 	if e := preamble(w, lmtp, true, 1); e != "" {
@@ -224,6 +224,17 @@ func c06Exec(c c06Case, limit int64) (c06Obs, *Verdict) {
 	}
 	if len(des) == 1 {
 		o.Read, o.EOF, o.ErrStr = des[0].Data.Bytes, des[0].Data.EOF, des[0].Data.ErrStr
+		// a backend that asks again after the reader failed gets nothing more
+		if extra := des[0].Data.AfterErrBytes; len(extra) > 0 {
+			v := failf("read-after-failure", "limit %d: the reader failed (%q) after %d octets, yet further reads handed over %d more: %s", limit, o.ErrStr, len(o.Read), len(extra), q(extra))
+			return o, &v
+		}
+		for _, rr := range des[0].Data.AfterErr {
+			if rr.Err == "" || rr.Err == "EOF" {
+				v := failf("failure-not-sticky", "limit %d: the reader failed (%q), then another Read returned (%d, %q)", limit, o.ErrStr, rr.N, rr.Err)
+				return o, &v
+			}
+		}
 	}
 	return o, nil
 }
